@@ -610,7 +610,7 @@ func TestC20Typed(t *testing.T) {
 // atoms of the property's alphabet only: literals, field references (incl. nil pointers, nil/empty slices and
 // maps, element access), len/regexp/in. Other registered functions (range, sprintf, email, phone, mblen) are
 // outside the statement's quantifier.
-var wildAtoms = []string{"$", "(A)$", "(B)$", "(S)$", "(K)$", "(L)$", "(P)$", "(Q)$", "(M)$", "(N)$", "(P)$[0]", "(L)$[0]", "(L)$[5]", "(M)$['a']", "(S)$[0]", "nil", "true", "false", "0", "1", "0.5", "-0.5", "-1", "''", "'a'", "'0.5'",
+var wildAtoms = []string{"$", "(A)$", "(B)$", "(S)$", "(K)$", "(L)$", "(P)$", "(Q)$", "(M)$", "(N)$", "(P)$[0]", "(L)$[0]", "(L)$[5]", "(L)$[-1]", "(L)$[(A)$]", "(S)$[(A)$]", "(L)$[0-(A)$]", "(M)$['a']", "(S)$[0]", "nil", "true", "false", "0", "1", "0.5", "-0.5", "-1", "''", "'a'", "'0.5'",
 	"len($)", "len((L)$)", "len((P)$)", "len((M)$)", "len((S)$)", "regexp('^a',(S)$)", "regexp('^a')", "regexp('^a',(P)$)", "in($,1,2)", "in((S)$,'a')", "in((L)$,1)", "in((P)$,nil)", "in((L)$,(L)$)", "in((M)$,1,(M)$)", "in((N)$,(N)$)"}
 var wildOps = []string{"+", "-", "*", "/", "%", "<", "<=", ">", ">=", "==", "!=", "&&", "||"}
 
@@ -652,7 +652,7 @@ func drawWildVals(t *rapid.T) *wildVals {
 	}
 	v.Qset = rapid.Bool().Draw(t, "Qset")
 	v.Mset = rapid.Bool().Draw(t, "Mset")
-	v.N = rapid.IntRange(0, 4).Draw(t, "N")
+	v.N = rapid.IntRange(0, 5).Draw(t, "N")
 	v.X = rapid.SampledFrom([]int{0, 1, 2}).Draw(t, "X")
 	return v
 }
@@ -694,6 +694,10 @@ func buildWild(expr string, v *wildVals) reflect.Value {
 		e.Field(8).Set(reflect.ValueOf(struct{ F []int }{}))
 	case 4:
 		e.Field(8).Set(reflect.ValueOf(1.5))
+	case 5:
+		e.Field(8).Set(reflect.ValueOf((*int)(nil))) // a typed nil pointer inside the interface
+	// (a typed nil pointer to a STRUCT inside an interface field makes the struct walker refuse the whole
+	// value with "unsupported data: nil" before any expression runs: outside this property, not drawn)
 	}
 	e.Field(9).SetInt(int64(v.X))
 	return obj
@@ -803,6 +807,16 @@ func TestC20Relations(t *testing.T) {
 		if gtOrEq != (gt || eq) || ltOrEq != (lt || eq) {
 			fail("|| of two verdicts is not their disjunction")
 		}
+		// redundant parentheses around the operand of a unary "!" do not change the verdict, and for the
+		// boolean-valued built-ins (regexp, in) "!f(...)" is accepted exactly when "f(...)" is not
+		atom := rapid.SampledFrom(wildAtoms).Draw(t, "negatedAtom")
+		notBare, notPar, plain := acc("!"+atom), acc("!("+atom+")"), acc(atom)
+		if notBare != notPar {
+			t.Fatalf("!%s is %v but !(%s) is %v with %+v: redundant parentheses change the verdict", atom, notBare, atom, notPar, *v)
+		}
+		if (strings.HasPrefix(atom, "regexp(") || strings.HasPrefix(atom, "in(")) && notBare == plain {
+			t.Fatalf("%s and !%s are both %v with %+v", atom, atom, plain, *v)
+		}
 		if rec.WantSample() {
 			rec.Sample(map[string]interface{}{"a": a, "b": b})
 		}
@@ -838,5 +852,86 @@ func TestC20Regress(t *testing.T) {
 	if acc, _ := validate("7 % 2 == 1 && 7.5 % 2 == 1 && 2 + 3 * 4 == 14 && 1 - 2 - 3 == -4 && 8 / 4 / 2 == 1 && !(1 > 2) || false && true", v); !acc {
 		ev.Fail(prop, "regress", map[string]string{"expr": "precedence smoke"}, "rejected")
 		t.Errorf("precedence smoke expression rejected")
+	}
+}
+
+// ---------------------------------------------------------------------------
+// By value or by pointer: binding.Validate accepts both. Small struct types, in particular those that
+// consist of one pointer-shaped field (such a value lives directly in the interface word), validated
+// by value and through a pointer: never a panic, and unless validation by value is refused outright
+// ("can not addr") the two verdicts agree.
+
+func TestC20ByValue(t *testing.T) {
+	rec := ev.New("by-value")
+	one := 1
+	five := 5
+	str := "a"
+	type fieldSpec struct {
+		name string
+		typ  reflect.Type
+		vals []interface{}
+		tags []string
+	}
+	specs := []fieldSpec{
+		{"*int", reflect.TypeOf((*int)(nil)), []interface{}{(*int)(nil), &one, &five}, []string{"$ == nil || $ > 0", "$ > 0", "$ != nil", "!regexp('^a')"}},
+		{"*string", reflect.TypeOf((*string)(nil)), []interface{}{(*string)(nil), &str}, []string{"$ == nil || len($) > 0", "regexp('^a')", "$ == 'a'"}},
+		{"map", reflect.TypeOf(map[string]int(nil)), []interface{}{map[string]int(nil), map[string]int{"a": 1}}, []string{"len($) >= 0", "$['a'] == 1"}},
+		{"[]int", reflect.TypeOf([]int(nil)), []interface{}{[]int(nil), []int{1, 2}}, []string{"len($) >= 0", "len($) > 1"}},
+		{"int", reflect.TypeOf(0), []interface{}{0, 7}, []string{"$ > 0", "$ == 0 || $ > 5"}},
+		{"string", reflect.TypeOf(""), []interface{}{"", "a"}, []string{"len($) > 0", "regexp('^a')"}},
+	}
+	shapes := []string{"single", "single-in-struct", "single-in-array", "two-fields"}
+	for _, sp := range specs {
+		for _, tag := range sp.tags {
+			for _, shape := range shapes {
+				for vi, val := range sp.vals {
+					fields := []reflect.StructField{{Name: "F", Type: sp.typ, Tag: reflect.StructTag("vd:" + strconv.Quote(tag))}}
+					if shape == "two-fields" {
+						fields = append(fields, reflect.StructField{Name: "G", Type: reflect.TypeOf(0)})
+					}
+					inner := reflect.New(reflect.StructOf(fields)).Elem()
+					inner.Field(0).Set(reflect.ValueOf(val))
+					obj := inner
+					switch shape {
+					case "single-in-struct":
+						outer := reflect.New(reflect.StructOf([]reflect.StructField{{Name: "In", Type: inner.Type()}})).Elem()
+						outer.Field(0).Set(inner)
+						obj = outer
+					case "single-in-array":
+						outer := reflect.New(reflect.StructOf([]reflect.StructField{{Name: "Arr", Type: reflect.ArrayOf(1, inner.Type())}})).Elem()
+						outer.Field(0).Index(0).Set(inner)
+						obj = outer
+					}
+					rec.Case(shape != "two-fields", ev.HashString(sp.name, tag, shape, fmt.Sprint(vi)), "by-value-"+shape, "field-"+sp.name)
+					run := func(x interface{}) (verdict string) {
+						defer func() {
+							if r := recover(); r != nil {
+								verdict = fmt.Sprintf("PANIC %v", r)
+							}
+						}()
+						if err := binding.Validate(x); err != nil {
+							if strings.Contains(err.Error(), "can not addr") {
+								return "refused"
+							}
+							return "rejected"
+						}
+						return "accepted"
+					}
+					byPtr := run(obj.Addr().Interface())
+					byVal := run(obj.Interface())
+					msg := ""
+					if strings.HasPrefix(byPtr, "PANIC") || strings.HasPrefix(byVal, "PANIC") {
+						msg = fmt.Sprintf("binding.Validate panicked: by pointer %s, by value %s", byPtr, byVal)
+					} else if byVal != "refused" && byVal != byPtr {
+						msg = fmt.Sprintf("by pointer the value is %s, by value %s", byPtr, byVal)
+					}
+					if msg != "" {
+						in := map[string]interface{}{"field": sp.name, "tag": tag, "shape": shape, "value_index": vi}
+						ev.Fail(prop, "by-value", in, msg)
+						t.Errorf("struct{F %s `vd:%q`} (%s, value #%d): %s", sp.name, tag, shape, vi, msg)
+					}
+				}
+			}
+		}
 	}
 }
